@@ -152,6 +152,22 @@ func (p *intPrinter) def(t *Term) {
 		} else {
 			p.fail("symbolic remainder")
 		}
+	case OpBvSDiv, OpBvSRem:
+		// signed division by a positive constant: truncate toward zero
+		if t.Args[1].IsConst() && t.Args[1].Val.Sign() != 0 && t.Args[1].Val.Bit(w-1) == 0 {
+			half, full := pow2(w-1), pow2(w)
+			sx := fmt.Sprintf("(ite (>= %s %s) (- %s %s) %s)", a(0), half, a(0), full, a(0))
+			c := a(1)
+			var q string
+			if t.Op == OpBvSDiv {
+				q = fmt.Sprintf("(let ((x %s)) (ite (>= x 0) (div x %s) (- (div (- x) %s))))", sx, c, c)
+			} else {
+				q = fmt.Sprintf("(let ((x %s)) (ite (>= x 0) (mod x %s) (- (mod (- x) %s))))", sx, c, c)
+			}
+			emit(fmt.Sprintf("(let ((r %s)) (ite (< r 0) (+ r %s) r))", q, full))
+		} else {
+			p.fail("signed division by non-constant")
+		}
 	case OpBvNot:
 		emit(fmt.Sprintf("(- %s %s)", new(big.Int).Sub(new(big.Int).Lsh(bigOne, uint(w)), bigOne).String(), a(0)))
 	case OpSExt:
@@ -273,9 +289,15 @@ func (s *Solver) CheckInt(asserts []*Term, timeoutMs int) (Result, string) {
 			return
 		}
 		seenW[t.ID] = true
-		if t.W > 129 {
+		if t.W > 330 {
 			wide = true
 			return
+		}
+		if t.Op == OpUF {
+			if _, inj := injFamily(t.Name); inj {
+				wide = true // hash / signature reasoning stays with bit-vectors
+				return
+			}
 		}
 		for _, a := range t.Args {
 			chk(a)
